@@ -91,7 +91,7 @@ def main():
     sh("rm -rf %s/replays/C*" % VERIF)
     ok = meta["suite_green_with_patch"] and meta["demo_fails_with_patch"] and meta["demo_passes_without_patch"]
     meta["confirmed"] = ok
-    notes = os.path.join(src, "notes.md")
+    notes = os.path.join(src, "NOTES.md") if os.path.exists(os.path.join(src, "NOTES.md")) else os.path.join(src, "notes.md")
     if os.path.exists(notes):
         meta["agent_notes_excerpt"] = open(notes).read()[:3000]
     if ok:
